@@ -1,33 +1,10 @@
 import ESV.Comp.Front3
+import ESV.Comp.GuardDefs
 /-
 `counter_fresh` for whole programs: recursion over the statement tree, routine bodies, macro blueprints, routine tables.
 -/
 namespace ESV.Comp
 open ESV
-
-/-! ### the guard: no operation written in the source is named like a jump-carrying op -/
-
-mutual
-def okStmt : Stmt → Bool
-  | .op name _ => !isJumpName name
-  | .inl c _ n _ => !isJumpName c && !isJumpName n
-  | .with_ c _ inner => !isJumpName c && okStmt inner
-  | .ite _ _ body elifs _ els => okStmts body && okElifs elifs && okStmts els
-  | .switch hdr cs => !isJumpName hdr.name && okCases cs
-  | .forever body => okStmts body
-  | .while_ _ _ body => okStmts body
-  | .for_ init _ inc body => okStmt init && okStmt inc && okStmts body
-  | _ => true
-def okStmts : Stmts → Bool
-  | .nil => true
-  | .cons s r => okStmt s && okStmts r
-def okElifs : Elifs → Bool
-  | .nil => true
-  | .cons _ _ body r => okStmts body && okElifs r
-def okCases : Cases → Bool
-  | .nil => true
-  | .cons _ _ _ body r => okStmts body && okCases r
-end
 
 def lenElifs : Elifs → Nat
   | .nil => 0
